@@ -12,7 +12,7 @@ from .c16 import RefNB, ngrams, corpus_strategy
 
 RULE = ("(a) entries (text, ts, gold) built from bundled corpus / auto-corpus / dataset texts and "
         "duration/interval/time grammar texts; gold = a fresh object (random span) with the value of a "
-        "randomly chosen candidate, a single-field perturbation of it, or the dataset's own gold; "
+        "randomly chosen candidate, a single-field perturbation of it, or the dataset's own gold (also several entries with the same text but different gold in one builder call); "
         "make_partial_rule_dataset(...) must equal, as a list, [ (prefix of production, value(candidate)"
         "==value(gold)) for every candidate of an independent ctparse_gen run, for every prefix ]; same "
         "for run_corpus with target = nb_str of a chosen candidate. (b) Hypothesis training sets with a "
@@ -99,6 +99,34 @@ def check_entry(text, ts, mode, k, span, scorer_spec, depth):
                       "gold {} : builder gave {} samples ({} positive), expected {} ({} positive); first diff {}".format(
                           goldv, len(got), sum(y for _, y in got), len(exp), sum(y for _, y in exp), first_diff(got, exp))))
     return fails, (ncand, npos, goldv)
+
+
+def check_batch(text, ts, modes_ks, scorer_spec, depth):
+    """several entries with the SAME text and reference time but different gold values in ONE builder call (a builder
+    that remembers its work per text must still label every entry by its own gold)"""
+    C, T, S = _lib()
+    m = core.load_repo()
+    mk = lambda: S.DummyScorer() if scorer_spec == "dummy" else None  # noqa
+    cands = [c for c in m.ctparse_gen(text, ts, timeout=0, max_stack_depth=depth, scorer=mk(), latent_time=False) if c]
+    if not cands:
+        return [], None
+    entries, exp, golds = [], [], []
+    for mode, k in modes_ks:
+        base = value(cands[k % len(cands)].resolution)
+        gv = perturb(base, k) if mode == "perturbed" else base
+        golds.append(gv)
+        entries.append(C.TimeParseEntry(text=text, ts=ts, gold=make_obj(gv)))
+        e, _, _ = expected_samples(text, ts, gv, mk(), depth)
+        exp += e
+    try:
+        got = [(list(X), y) for X, y in C.make_partial_rule_dataset(entries, scorer=mk() or m._DEFAULT_SCORER, timeout=0,
+                                                                     max_stack_depth=depth)]
+    except Exception as e:
+        return [("builder-raises:" + type(e).__name__, repr(e))], (len(cands), golds)
+    if got != exp:
+        return [(classify(got, exp) + ":make_partial_rule_dataset:batch-of-entries-with-the-same-text",
+                 "golds {}: {}".format(golds, first_diff(got, exp)))], (len(cands), golds)
+    return [], (len(cands), golds)
 
 
 def classify(got, exp):
@@ -194,6 +222,14 @@ def _shard_a(arg):
             return
         depth = o["max_stack_depth"]
         case = {"text": text, "ts": ts.isoformat(), "mode": mode, "k": k, "span": list(span), "scorer": sc, "depth": depth}
+        if k % 4 == 0:
+            mk_ = [("candidate", k), ("candidate", k + 1), ("perturbed", k), ("candidate", k)]
+            fails, info = check_batch(text, ts, mk_, sc, depth)
+            if info is not None:
+                acc.case((text, case["ts"], "batch", k, sc, depth), nontrivial=len(set(info[1])) >= 2,
+                         cls=[origin, "mode:batch-same-text", cls], sample=dict(case, mode="batch", golds=info[1]))
+                for b, d in fails:
+                    acc.fail(b, dict(case, mode="batch", batch=[list(x) for x in mk_]), d)
         if mode == "dataset-gold" and dgold is not None:
             fails, info = check_dataset_entry(text, ts, dgold, sc, depth)
         else:
@@ -336,6 +372,9 @@ def replay(case, bucket=None):
         fails = r[0] if r else []
     else:
         ts = core.parse_ts(case["ts"])
+        if case["mode"] == "batch":
+            fails, _ = check_batch(case["text"], ts, [tuple(x) for x in case["batch"]], case["scorer"], case["depth"])
+            return fails[0] if fails else None
         if case["mode"] == "dataset-gold":
             gold = None
             for o, t, tts, g in all_texts():
